@@ -167,6 +167,7 @@ int main(int argc, char** argv) {
       rep.sets("rule", "complete enumeration of hash inputs (len 0..80 x 8 seeds x 4 patterns), of the golden corpus, of the shipped reference images and of the corpus states for each documented layout; distinct = (part, family) tag");
     }; tasks.push_back(t); }
   { Task t; t.name = "legacy"; t.fn = [&cfg](Report& rep) { dec::legacy_images(rep, cfg); }; tasks.push_back(t); }
+  { Task t; t.name = "legacy-layout"; t.fn = [&cfg](Report& rep) { dec::legacy_more(rep, cfg); }; tasks.push_back(t); }
   for (size_t i = 0; i < registry().size(); ++i) {
     const Family f = registry()[i];
     { Task t; t.name = "golden/" + f.name; t.fn = [f, &cfg](Report& rep) { if (!cfg.replay_scenario.empty() && cfg.replay_scenario != "golden/" + f.name) return; golden(f, rep, cfg); }; tasks.push_back(t); }
